@@ -93,6 +93,12 @@ impl Run {
             let a = mk_addr("osmo", n, 20);
             std::sync::Arc::make_mut(&mut w.names).add(n, &a);
         }
+        // a crowd (more accounts than any page size / scan bound used by the contract)
+        for k in 1..=40 {
+            let n = format!("v{k}");
+            let a = mk_addr("osmo", &n, 20);
+            std::sync::Arc::make_mut(&mut w.names).add(&n, &a);
+        }
         for n in ["c1", "treasury", "treasury2", "oracle", "oracle2"] {
             let a = mk_addr("osmo", n, 32);
             std::sync::Arc::make_mut(&mut w.names).add(n, &a);
@@ -270,6 +276,7 @@ impl Run {
                 .map(|a| a.iter().filter_map(|x| x.as_u64().map(|y| y as usize)).collect())
                 .unwrap_or_default(),
         };
+        self.w.notx = call.get("notx").and_then(|x| x.as_bool()).unwrap_or(false);
         let out: TxOut = match m.as_str() {
             // ------------------------------------------------------------ environment
             "faucet" => {
@@ -298,10 +305,13 @@ impl Run {
                 let t = ju(&call, "t") as u64;
                 // block time is u64 nanoseconds: instants beyond year ~2554 cannot be reached
                 // domain: block times up to the year 2200 (a saturated deadline is never reached)
+                // `ns`: the sub-second part of the block time (real blocks never fall on a whole second; the model asks for
+                // .999999999 on the second BEFORE a deadline - still too early - and .0 on the deadline itself)
+                let sub = ju(&call, "ns") as u64 % 1_000_000_000;
                 match t.checked_mul(1_000_000_000).filter(|_| t <= 7_258_118_400) {
                     Some(ns) => {
                         if t >= self.w.now_s() {
-                            self.w.now_ns = ns;
+                            self.w.now_ns = ns + sub;
                             self.w.height += 1;
                             self.w.tx_index = 0;
                         }
